@@ -159,6 +159,13 @@ def _test_slug_func(text: str) -> str:
     return text[::-1]
 
 
+def check_words_per_minute(inst: "MdParserConfig", field: dc.Field, value: Any) -> None:
+    """Check that the words per minute is a positive integer (it is used as a divisor)."""
+    instance_of(int)(inst, field, value)
+    if value <= 0:
+        raise ValueError(f"'{field.name}' must be a positive integer: {value!r}")
+
+
 def check_fence_as_directive(
     inst: "MdParserConfig", field: dc.Field, value: Any
 ) -> None:
@@ -337,7 +344,7 @@ class MdParserConfig:
     words_per_minute: int = dc.field(
         default=200,
         metadata={
-            "validator": instance_of(int),
+            "validator": check_words_per_minute,
             "help": "For reading speed calculations",
         },
     )
